@@ -61,7 +61,8 @@ Definition cj_eqb (a b : cj_err + string) : bool :=
 
 Definition cj2_eqb (a b : cj_err2 + string) : bool :=
   match a, b with
-  | inl CJ2Colon, inl CJ2Colon | inl CJ2DotDot, inl CJ2DotDot | inl CJ2Abs, inl CJ2Abs | inl CJ2Root, inl CJ2Root => true
+  | inl CJ2Colon, inl CJ2Colon | inl CJ2DotDot, inl CJ2DotDot | inl CJ2Abs, inl CJ2Abs | inl CJ2Root, inl CJ2Root
+  | inl CJ2Lstat, inl CJ2Lstat => true
   | inr x, inr y => String.eqb x y
   | _, _ => false
   end.
